@@ -24,6 +24,22 @@ func c07ExpireNow(key string, how int) [][]string {
 	return [][]string{{"EXPIREAT", key, "1"}}
 }
 
+// c07SizeTemplates: in-place modifications that change the size of the value (grow beyond the current end, shrink,
+// or change nothing), and replacing forms with the target among their own operands. The canonical templates of the
+// C06 matrix stay inside the current value; an implementation that re-creates the object when it has to grow would
+// lose the deadline only here.
+var c07SizeTemplates = [][]string{
+	{"SETBIT", "K", "100", "1"}, {"SETBIT", "K", "7", "0"}, {"BITFIELD", "K", "SET", "u8", "#9", "255"}, {"BITFIELD", "K", "INCRBY", "u16", "200", "1"}, {"BITFIELD", "K", "OVERFLOW", "FAIL", "INCRBY", "u8", "0", "300"},
+	{"BITFIELD", "K", "GET", "u8", "400"}, {"SETRANGE", "K", "20", "tail"}, {"SETRANGE", "K", "0", ""}, {"APPEND", "K", ""}, {"APPEND", "K", "a-much-longer-tail-than-the-value-itself"}, {"INCRBY", "K", "999999"}, {"DECRBY", "K", "11"}, {"INCRBYFLOAT", "K", "0.25"},
+	{"LPUSH", "K", "p1", "p2", "p3", "p4", "p5", "p6", "p7", "p8"}, {"LINSERT", "K", "AFTER", "c", "x"}, {"LSET", "K", "-1", "x"}, {"LREM", "K", "-1", "a"}, {"LTRIM", "K", "1", "-1"}, {"LPOP", "K", "2"}, {"RPOP", "K", "2"},
+	{"LMPOP", "1", "K", "RIGHT", "COUNT", "2"}, {"LMOVE", "K", "K", "LEFT", "RIGHT"}, {"RPOPLPUSH", "K", "K"}, {"BLMOVE", "K", "K", "RIGHT", "LEFT", "0.01"},
+	{"HSET", "K", "newfield", "v", "f1", "changed"}, {"HDEL", "K", "f1"}, {"HINCRBYFLOAT", "K", "n", "0.5"}, {"HSETNX", "K", "f1", "x"}, {"HINCRBY", "K", "newcounter", "5"},
+	{"SADD", "K", "x", "y", "z", "u", "v", "w", "q", "r"}, {"SREM", "K", "a"}, {"SMOVE", "K", "sother", "b"}, {"SMOVE", "K", "K", "a"}, {"SMOVE", "sother", "K", "b"},
+	{"SORT", "K", "ALPHA", "STORE", "K"}, {"SUNIONSTORE", "K", "K", "sother"}, {"SDIFFSTORE", "K", "K", "nokey"}, {"SINTERSTORE", "K", "K", "K"}, {"BITOP", "OR", "K", "K", "other"}, {"BITOP", "NOT", "K", "K"},
+	{"COPY", "other", "K", "REPLACE"}, {"RENAME", "other", "K"}, {"SET", "K", "v", "GET"}, {"SET", "K", "v", "KEEPTTL", "GET"}, {"SET", "K", "v", "XX", "KEEPTTL"}, {"SET", "K", "v", "NX", "KEEPTTL"}, {"GETEX", "K", "PERSIST"},
+	{"MSETNX", "fresh", "w", "K", "v"}, {"RENAMENX", "other", "K"}, {"COPY", "other", "K"}, {"LPUSHX", "K", "x"}, {"RPUSHX", "K", "x", "y"},
+}
+
 // c07PhaseMatrix: every command template x key type x lifetime phase.
 func c07PhaseMatrix(r *verdict.Run) {
 	type cell struct {
@@ -37,13 +53,9 @@ func c07PhaseMatrix(r *verdict.Run) {
 	n := 0
 	for _, ph := range phases {
 		for _, t := range types {
-			for _, tm := range c06Templates {
+			for _, tm := range append(append([][]string{}, c06Templates...), c07SizeTemplates...) {
 				n++
-				// quick: a seeded half of the matrix; thorough: all
-				if r.Tier != "thorough" && (n+int(r.Seed))%2 != 0 {
-					continue
-				}
-				cells = append(cells, cell{tm, t, ph})
+				cells = append(cells, cell{tm, t, ph}) // the whole matrix in both tiers (a sampled half once hid MSETNX on an expired key)
 			}
 		}
 	}
@@ -361,7 +373,7 @@ func c07Gen(rng *rand.Rand, m *model.Model, keys []string) []string {
 func pick3(rng *rand.Rand) int { return []int{100, 300, -10, 0, 1000}[rng.Intn(5)] }
 
 func checkC07(r *verdict.Run) {
-	r.Rule = "(1) lifetime-phase matrix: every command template x key type x {deadline 100 s ahead, deadline passed but object still stored (PEXPIREAT 1 / EXPIRE -1 / EXPIREAT 1), operand keys expired}: an expired key must behave as missing for every command, TTL preserved/cleared per command; " +
+	r.Rule = "(1) lifetime-phase matrix: every command template (the canonical invocations plus 55 size-changing in-place modifications and replacing forms whose target is among their operands) x key type x {deadline 100 s ahead, deadline passed but object still stored (PEXPIREAT 1 / EXPIRE -1 / EXPIREAT 1), operand keys expired}: an expired key must behave as missing for every command, TTL preserved/cleared per command; " +
 		"(2) EXPIRE/PEXPIRE/EXPIREAT/PEXPIREAT x {none,NX,XX,GT,LT} x {no deadline, later, earlier} x {positive, zero, negative} and TTL/PTTL/EXPIRETIME/PEXPIRETIME/PERSIST/GETEX/SET option sequences; " +
 		"(2b) every deadline-setting form (EXPIRE family, SET/GETEX EX/PX/EXAT/PXAT, SETEX, PSETEX) with extreme values around 292 years, year 9999, 2^53 ms and the int64 limits, positive and negative: stored or refused as Redis does, never a vanished or persistent key; " +
 		"(3) transition batches: keys of 4 types with 120-400 ms TTLs read by rotating commands across the deadline. All against the reference model with an interval clock: an observation is judged only when its [send, receive] interval lies entirely before or after the deadline interval (no wall-clock tolerance constants). " +
